@@ -135,6 +135,15 @@ impl Op {
                     .is_some_and(|v| v.is_empty() || v.to_lowercase() == "true")
             };
             let mut next_param = parameters.next(def);
+            // An argument still unresolved refers to a value not given by the caller
+            for (key, value) in &args {
+                if value.trim_start().starts_with('$') && next_param.globals.get(key) == Some(value)
+                {
+                    return Err(Error::Syntax(format!(
+                        "Incomplete definition for '{key}' ('{value}' not found)"
+                    )));
+                }
+            }
             next_param.definition = macro_definition;
             let mut op = Op::op(next_param, ctx)?.handle_inversion(inverted)?;
             if omitted("omit_fwd") {
